@@ -8,12 +8,29 @@ import json
 
 def canon_out(out_doc, in_doc, author):
     d = copy.deepcopy(out_doc)
+    # marks the same author left in an earlier round are part of the input: their dates stay
+    old_marks = set()
+
+    def collect(blocks):
+        for b in blocks:
+            if "p" in b:
+                for n in b["p"]["nodes"]:
+                    if n["k"] in ("ins", "del") and n.get("author") == author:
+                        old_marks.add(n["id"])
+            elif "tbl" in b:
+                for row in b["tbl"]["rows"]:
+                    for c in row["cells"]:
+                        collect(c["blocks"])
+
+    collect(in_doc["body"])
+    for s in in_doc.get("headers", []) + in_doc.get("footers", []):
+        collect(s["blocks"])
 
     def fix_blocks(blocks):
         for b in blocks:
             if "p" in b:
                 for n in b["p"]["nodes"]:
-                    if n["k"] in ("ins", "del") and n.get("author") == author:
+                    if n["k"] in ("ins", "del") and n.get("author") == author and n["id"] not in old_marks:
                         n["date"] = "DATE"
             elif "tbl" in b:
                 for row in b["tbl"]["rows"]:
